@@ -152,6 +152,11 @@ type options struct {
 // is far above what real types need; it is kept low because every level wraps the error of the level below.
 const maxDecodeDepth = 1000
 
+// maxEncodeDepth is the nesting depth up to which values are encoded. It stays a few levels below maxDecodeDepth: the
+// destination of a Decode call can add levels of its own (a pointer to the value, an interface that holds it), and what
+// Encode accepts has to be decodable.
+const maxEncodeDepth = maxDecodeDepth - 8
+
 func (o *options) toMode() serializer.DeSerializationMode {
 	mode := serializer.DeSeriModeNoValidation
 	if o.validation {
